@@ -73,8 +73,11 @@ def _unquote(s):
     return s
 
 
-def parse_vspec(path):
+def parse_vspec(path, drop=None):
+    """`drop`: property ids whose clauses this unit leaves out (`@@drop_props`, see below)"""
     unit = {"name": None, "externs": [], "parts": [], "path": path}
+    drop = set(drop or ())
+    skip_next = False
     cur_item = None
     cur_block = None
     with open(path, encoding="utf-8") as f:
@@ -86,6 +89,15 @@ def parse_vspec(path):
             parts = d.split(None, 1)
             key = parts[0][2:]
             rest = parts[1] if len(parts) > 1 else ""
+            # `@@when_kept C01` / `@@when_dropped C01`: the NEXT directive applies only when this unit
+            # keeps / drops the listed properties' clauses (@@drop_props)
+            if key in ("when_kept", "when_dropped"):
+                dropped = set(rest.split()) <= drop
+                skip_next = dropped if key == "when_kept" else not dropped
+                continue
+            if skip_next:
+                skip_next = False
+                continue
             if key == "unit":
                 unit["name"] = rest.strip()
             elif key == "extern":
@@ -94,7 +106,7 @@ def parse_vspec(path):
                 unit["parts"].append(("raw", rest.strip()))
                 cur_item = None
             elif key == "include":
-                sub = parse_vspec(os.path.join(os.path.dirname(os.path.dirname(path)), rest.strip()))
+                sub = parse_vspec(os.path.join(os.path.dirname(os.path.dirname(path)), rest.strip()), drop)
                 unit["parts"].extend(sub["parts"])
                 for e in sub["externs"]:
                     if e not in unit["externs"]:
@@ -214,6 +226,13 @@ def parse_vspec(path):
                 cur_item.props = sorted(set(cur_item.props) | set(rest.split()))
             elif key == "default_props":
                 unit["default_props"] = rest.split()
+            elif key == "drop_props":
+                # `@@drop_props C01`: contract lines (clauses, invariants, hints) tagged ONLY with the
+                # listed properties are left out of this unit and of the files it includes from here
+                # on.  Only specification text is ever dropped, never repository code; the clauses
+                # are discharged by the unit that does not drop them (DESIGN 2.2a).
+                drop |= set(rest.split())
+                unit["drop_props"] = sorted(drop)
             elif key == "end":
                 cur_block = None
             else:
@@ -222,12 +241,35 @@ def parse_vspec(path):
             if cur_block is not None:
                 # `//~block C02 ...`: every following line of this payload block carries these
                 # property tags (a failing hint inside the block is attributed to exactly them)
-                if raw.strip().startswith("//~block"):
-                    cur_block.block_tag = " ".join(re.findall(r"C\d{2,3}", raw))
-                    continue
+                # (also at the end of a line, `proof { //~block C01`; `//~endblock` ends the tagging)
+                if "//~endblock" in raw:
+                    raw = raw.split("//~endblock", 1)[0].rstrip()
+                    if not raw.strip():
+                        cur_block.block_tag = None
+                        continue
+                    if getattr(cur_block, "block_tag", None) and "//~" not in raw:
+                        raw = raw + " //~ " + cur_block.block_tag   # the closing line still belongs to the block
+                    cur_block.block_tag = None
+                elif "//~block" in raw:
+                    cur_block.block_tag = " ".join(re.findall(r"C\d{2,3}", raw.split("//~block", 1)[1]))
+                    raw = raw.split("//~block", 1)[0].rstrip()
+                    if not raw.strip():
+                        continue
                 bt = getattr(cur_block, "block_tag", None)
                 if bt and raw.strip() and "//~" not in raw:
                     raw = raw + " //~ " + bt
+                if drop and "//~" in raw:
+                    tags = set(re.findall(r"C\d{2,3}", raw.split("//~", 1)[1]))
+                    if tags and tags <= drop:
+                        # drop the clause this tagged line ends: the untagged lines before it back to
+                        # the previous clause end (`,` `;` `{` `}`), comment or tagged line
+                        while cur_block.payload:
+                            prev = cur_block.payload[-1][0].strip()
+                            if not prev or prev.startswith("//") or "//~" in prev or prev.endswith((",", ";", "{", "}")) \
+                                    or prev in ("requires", "ensures", "invariant", "decreases") or prev.startswith(("requires ", "ensures ", "invariant ", "decreases ")):
+                                break
+                            cur_block.payload.pop()
+                        continue
                 cur_block.payload.append((raw, ln))
     return unit
 
